@@ -153,8 +153,22 @@ theorem call_callable_exact (ps : List Ty) (r : Ty) (args : List Ty) (t : Ty)
   · cases h
   · rename_i hl
     split at h
-    · cases h
     · cases h; exact ⟨by simpa using hl, rfl⟩
+    · cases h
+
+/-- **calls through function-typed values are checked exactly**: `f(a1, …, an)` for `f : (P1, …, Pn) -> (R)` is
+accepted iff there are exactly `n` arguments and each is assignable to its parameter type (generic parameters in
+the `Pi` are rigid: nothing may be bound) -/
+theorem call_callable_iff (ar : String → Nat) (ps : List Ty) (r : Ty) (args : List Ty)
+    (hd : declarableList ps = true) (hr : wfList ar ps = true) (hw : wfList ar args = true) :
+    typeOfCall (.callable ps r) args = .ok r ↔ args.length = ps.length ∧ SubList args ps := by
+  simp only [typeOfCall]
+  by_cases hl : args.length = ps.length
+  · simp only [hl, bne_self_eq_false, Bool.false_eq_true, if_false, true_and]
+    rw [← callableArgs_iff ar ps args hd hr hw hl.symm]
+    cases callableArgs ps args <;> simp
+  · have : ¬ SubList args ps := fun h => hl h.length_eq
+    simp [hl, this]
 
 /-- a call through a variable holding a function respects the function's arity window -/
 theorem call_func_window (g : Option (List String)) (ps : List Ty) (n : Nat) (r : Ty) (args : List Ty) (t : Ty)
